@@ -223,21 +223,41 @@ class CaseTimeout(BaseException):
     pass
 
 
+def _runqueue_wait():
+    """seconds this thread has spent runnable but waiting for a core (second field of /proc/thread-self/schedstat); 0 where the
+    kernel does not say"""
+    try:
+        with open('/proc/thread-self/schedstat') as f:
+            return int(f.read().split()[1]) / 1e9
+    except Exception:
+        return 0.0
+
+
 def guarded_run_impl(prop, case, timeout=None):
     """run one case against the implementation under a watchdog: code under test that spins (or eats memory) without returning
     must not wedge the check. -> (obs, err, hang)"""
     import signal
 
     fired = []
+    limit = timeout or CASE_TIMEOUT
+    t0, w0 = time.monotonic(), _runqueue_wait()
 
     def on_alarm(signum, frame):
+        # the limit is on time this process could have used: wall-clock time minus the time it sat runnable on a run queue waiting
+        # for a core (a machine busy with other work must not turn a case of a few milliseconds into a "hang"); a process that is
+        # blocked or spinning accumulates none of that.  Hard cap: 20 x the limit of wall-clock time, whatever the scheduler says.
+        wall = time.monotonic() - t0
+        used = wall - max(0.0, _runqueue_wait() - w0)
+        if used < limit and wall < 20 * limit and not fired:
+            signal.setitimer(signal.ITIMER_REAL, max(0.25, limit - used))
+            return
         # raised inside whatever is spinning; asyncio stores a BaseException raised inside a task instead of propagating it,
         # so the scenario may well go on and return: `fired` remembers that the watchdog had to break something up
         fired.append(1)
         signal.setitimer(signal.ITIMER_REAL, 2)      # and again, should the next thing spin as well
         raise CaseTimeout()
     old = signal.signal(signal.SIGALRM, on_alarm)
-    signal.setitimer(signal.ITIMER_REAL, timeout or CASE_TIMEOUT)
+    signal.setitimer(signal.ITIMER_REAL, limit)
     try:
         obs = prop.run_impl(case)
         if fired:
